@@ -21,6 +21,11 @@ type exampleBuilder struct {
 	// Infinity recursion can't happen here 'cause we check it before building
 	// example, but optional recursion can be there.
 	processedTypes map[string]int
+
+	// bestEffort makes the builder drop whatever it can't build within the
+	// recursion limit instead of looking for another way. Used only when no
+	// example can be built otherwise.
+	bestEffort bool
 }
 
 func newExampleBuilder(types map[string]internalSchema.Type) *exampleBuilder {
@@ -30,7 +35,20 @@ func newExampleBuilder(types map[string]internalSchema.Type) *exampleBuilder {
 	}
 }
 
+// Build returns an example which the schema accepts: at the recursion limit an
+// optional property is left out, an array ends, and an "or" takes the first
+// alternative which can still be built. If nothing can be built that way (a
+// type that requires itself), the best effort is returned.
 func (b *exampleBuilder) Build(node internalSchema.Node) ([]byte, error) {
+	ex, err := b.build(node)
+	if ex == nil && err == nil {
+		b.bestEffort = true
+		ex, err = b.build(node)
+	}
+	return ex, err
+}
+
+func (b *exampleBuilder) build(node internalSchema.Node) ([]byte, error) {
 	switch typedNode := node.(type) {
 	case *internalSchema.ObjectNode:
 		return b.buildExampleForObjectNode(typedNode)
@@ -61,12 +79,18 @@ func (b *exampleBuilder) buildExampleForObjectNode(node *internalSchema.ObjectNo
 	children := node.Children()
 	first := true
 	for i, childNode := range children {
-		ex, err := b.Build(childNode)
+		ex, err := b.build(childNode)
 		if err != nil {
 			return nil, err
 		}
 
 		if ex == nil {
+			if !b.bestEffort && isRequiredKey(node, node.Key(i).Key) {
+				// A required property can't be built within the recursion
+				// limit, so neither can this object: let an "or" above choose
+				// another alternative.
+				return nil, nil
+			}
 			continue
 		}
 
@@ -91,6 +115,19 @@ func (b *exampleBuilder) buildExampleForObjectNode(node *internalSchema.ObjectNo
 	return append([]byte(nil), buf.Bytes()...), nil
 }
 
+func isRequiredKey(node *internalSchema.ObjectNode, key string) bool {
+	c, ok := node.Constraint(constraint.RequiredKeysConstraintType).(*constraint.RequiredKeys)
+	if !ok {
+		return false
+	}
+	for _, k := range c.Keys() {
+		if k == key {
+			return true
+		}
+	}
+	return false
+}
+
 func (b *exampleBuilder) buildObjectKey(k internalSchema.ObjectNodeKey) ([]byte, error) {
 	if !k.IsShortcut {
 		// The key is stored decoded: escape it again for the JSON output.
@@ -106,7 +143,7 @@ func (b *exampleBuilder) buildObjectKey(k internalSchema.ObjectNodeKey) ([]byte,
 		return nil, errors.Format(errors.ErrUnknownType, k.Key)
 	}
 
-	ex, err := b.Build(typ.Schema().RootNode())
+	ex, err := b.build(typ.Schema().RootNode())
 	if err != nil {
 		return nil, err
 	}
@@ -125,13 +162,18 @@ func (b *exampleBuilder) buildExampleForArrayNode(node *internalSchema.ArrayNode
 	children := node.Children()
 	first := true
 	for _, childNode := range children {
-		ex, err := b.Build(childNode)
+		ex, err := b.build(childNode)
 		if err != nil {
 			return nil, err
 		}
 
 		if ex == nil {
-			continue
+			if b.bestEffort {
+				continue
+			}
+			// The recursion limit is reached: the array ends here, a later
+			// element must not move to an earlier position.
+			break
 		}
 
 		if !first {
@@ -153,7 +195,17 @@ func (b *exampleBuilder) buildExampleForMixedValueNode(node *internalSchema.Mixe
 		return nil, errors.ErrLoader
 	}
 
-	typeName := tt[0]
+	// The first alternative which can be built within the recursion limit.
+	for _, typeName := range tt {
+		ex, err := b.buildExampleForTypeName(node, typeName)
+		if ex != nil || err != nil || b.bestEffort {
+			return ex, err
+		}
+	}
+	return nil, nil
+}
+
+func (b *exampleBuilder) buildExampleForTypeName(node *internalSchema.MixedValueNode, typeName string) ([]byte, error) {
 	if !bytes.Bytes(typeName).IsUserTypeName() {
 		return node.Value(), nil
 	}
@@ -172,7 +224,7 @@ func (b *exampleBuilder) buildExampleForMixedValueNode(node *internalSchema.Mixe
 	if !ok {
 		return nil, errors.Format(errors.ErrTypeNotFound, typeName)
 	}
-	return b.Build(t.Schema().RootNode())
+	return b.build(t.Schema().RootNode())
 }
 
 func buildExample(node internalSchema.Node, types map[string]internalSchema.Type) ([]byte, error) {
